@@ -256,6 +256,7 @@ K_LEAVES = [
     ["w = x + 1"],          # first assignment of w inside the construct
     ["break"],
     ["continue"],
+    ["pass"],
     ["x += 2", "mon.write(x)"],
 ]
 
